@@ -296,6 +296,18 @@ def run_seeded(scn, run_seed, tier, zpool, seen=(), do_min=True, min_cap=60.0, a
         return res
     res["digest"] = dg
     res["stats"] = stats
+    # which constructors / operators / algorithms were actually executed (successfully, on
+    # any node): an op the planner can never build would otherwise go unnoticed
+    fam = {}
+    for ev in history:
+        op, r = ev[2], ev[3]
+        if isinstance(op, list) and op and op[0] == "fault" and len(op) > 3:
+            op = op[3]
+        if not (isinstance(r, dict) and "ok" in r) or not isinstance(op, list) or not op:
+            continue
+        name = op[2] if op[0] == "call" and len(op) > 2 and isinstance(op[2], str) else op[0]
+        fam[name] = fam.get(name, 0) + 1
+    res["opfam"] = fam
     res["steps"] = len(history)
     res["schedule"] = scn.schedule_digest(plan, xp, history)
     res["plan_size"] = len(plan["units"])
@@ -597,6 +609,8 @@ def _absorb(scn, agg, r):
         agg["inconclusive"] += 1
         return
     agg["arms"][r["arm"]] = agg["arms"].get(r["arm"], 0) + 1
+    for k, v in (r.get("opfam") or {}).items():
+        agg.setdefault("opfam", {})[k] = agg.get("opfam", {}).get(k, 0) + v
     agg["schedules"].add(r["schedule"])
     agg["steps_total"] += r["steps"]
     s = r.get("stats") or {}
@@ -639,6 +653,7 @@ def write_evidence(scn, tier, seed, agg, distinct_unlisted, known_hit, wall_s, s
             "distinct_states": len(agg["states"]),
             "probes": agg["probes"],
             "arms": agg["arms"],
+            "operations_executed": dict(sorted(agg.get("opfam", {}).items(), key=lambda kv: (-kv[1], kv[0]))),
             "inconclusive": agg["inconclusive"],
             "harness_errors": len(agg["harness_errors"]),
             "real_components": scn.real_components,
